@@ -1217,7 +1217,11 @@ func c09HookDecides(p *Program, r *Report) {
 	// hooks: calls whose closure argument invokes an actor hook; identified as the calls of one same bool-returning module
 	// function that are made from the restart step with a closure argument
 	var hooks []*ssa.Call
-	for _, b := range fn.Blocks {
+	var hookBlocks []*ssa.BasicBlock
+	for _, hf := range p.igx(fn).Fns { // the hook sequence may be extracted into a helper of the restart step
+		hookBlocks = append(hookBlocks, hf.Blocks...)
+	}
+	for _, b := range hookBlocks {
 		for _, in := range b.Instrs {
 			c, ok := in.(*ssa.Call)
 			if !ok || c.Call.StaticCallee() == nil || !p.inModule(c.Call.StaticCallee()) {
